@@ -48,8 +48,17 @@ class VM {
   std::vector<Activation> stack;
   std::set<BreakPoint> enabled_breakpoints;
 
+  void rebindActivations();
+
  public:
   VM(Program code);
+
+  /* activation records point back at their machine, so a copied or moved
+   * machine has to re-bind the records it took over */
+  VM(const VM& other);
+  VM(VM&& other) noexcept;
+  VM& operator=(const VM& other);
+  VM& operator=(VM&& other) noexcept;
 
   /**
    * get reference to activation stack (for debug purposes)
